@@ -124,7 +124,7 @@ def run_case(case):
     rng = np.random.Generator(np.random.PCG64(case['seed']))
     cls = case['cls']
     wa = '2d' not in cls if cls.endswith('d') else bool(rng.integers(0, 2))
-    em = InsErrorModel(wa)
+    em = InsErrorModel(forms.flag(np.random.Generator(np.random.PCG64(case['seed'] + 3)), wa))       # bool or numpy.bool_
     pva = gen_pva(rng, cls)
     out = []
     obs = {}
@@ -136,7 +136,7 @@ def run_case(case):
     if case['seed'] % 2 == 1:
         # a long-lived model and a long-lived Pva object overwritten in place between uses (a memo keyed on object identity, or a
         # retained reference to the caller's Series, only shows on such a history): warm up on another state, then overwrite
-        em, holder = LIVE.setdefault(wa, (InsErrorModel(wa), forms.Reused()))
+        em, holder = LIVE.setdefault(wa, (InsErrorModel(np.bool_(wa)), forms.Reused()))
         warm = gen_pva(frng, cls)[list(pva.index)]
         live = holder.put(warm)
         em.transform_to_output(live)
